@@ -43,3 +43,43 @@ pub proof fn lemma_shl8_add(v: u32, b: u8)
             requires m == (v as nat * 256) % 0x1_0000_0000, m + (b as nat) < 0x1_0000_0000;
     }
 }
+
+// ---- decode_xref_stream: abstract stream / dictionary (callee contracts only) ---------------------------------------
+pub struct Dictionary { pub tag: Ghost<int> }
+pub struct Stream { pub dict: Dictionary, pub content: Vec<u8> }
+impl Stream {
+    #[verifier::external_body]
+    pub fn is_compressed(&self) -> (r: bool) { unimplemented!() }
+    /// unit `stream` proves what decompress yields; here only that it returns
+    #[verifier::external_body]
+    pub fn decompress(&mut self) -> (r: core::result::Result<(), ErrTag>) { unimplemented!() }
+}
+impl Cursor {
+    pub fn new(data: Vec<u8>) -> (r: Cursor) ensures r.data == data, r.pos == 0 { Cursor { data, pos: 0 } }
+}
+#[verifier::external_body]
+pub fn dict_get_i64(d: &Dictionary, key: &[u8]) -> (r: core::result::Result<i64, ErrTag>) { unimplemented!() }
+#[verifier::external_body]
+pub fn dict_get_int_array(d: &Dictionary, key: &[u8]) -> (r: core::result::Result<Vec<i64>, ErrTag>) { unimplemented!() }
+#[verifier::external_body]
+pub fn dict_remove(d: &mut Dictionary, key: &[u8]) { unimplemented!() }
+pub fn vec2(a: i64, b: i64) -> (r: Vec<i64>) ensures r@ == seq![a, b] { let mut v = Vec::new(); v.push(a); v.push(b); v }
+pub fn all3_zero(w: &Vec<i64>) -> (r: bool) requires w@.len() >= 3 ensures r == (w@[0] == 0 && w@[1] == 0 && w@[2] == 0) { w[0] == 0 && w[1] == 0 && w[2] == 0 }
+pub fn any3_gt(w: &Vec<i64>, n: u64) -> (r: bool)
+    requires w@.len() >= 3, w@[0] >= 0, w@[1] >= 0, w@[2] >= 0
+    ensures r == (w@[0] as u64 > n || w@[1] as u64 > n || w@[2] as u64 > n)
+{ w[0] as u64 > n || w[1] as u64 > n || w[2] as u64 > n }
+/// object number of entry j of a subsection starting at `start`, if it is one (0 ..= u32::MAX)
+pub fn id_of(start: i64, j: i64) -> (r: Option<u32>)
+    ensures r is Some <==> (0 <= start + j <= u32::MAX), r is Some ==> r->Some_0 as int == start + j
+{
+    match start.checked_add(j) { Some(x) => if 0 <= x && x <= u32::MAX as i64 { Some(x as u32) } else { None }, None => None }
+}
+/// `vec![0; n]` with the allocation bound as a precondition: never more than the data could fill
+#[verifier::external_body]
+pub fn zeros_bounded(n: usize, Ghost(limit): Ghost<nat>) -> (r: Vec<u8>)
+    requires n <= limit
+    ensures r@.len() == n
+{ vec![0u8; n] }
+pub fn u32_try_from_i64(x: i64) -> (r: Option<u32>) ensures r is Some <==> (0 <= x <= u32::MAX), r is Some ==> r->Some_0 as int == x
+{ if 0 <= x && x <= u32::MAX as i64 { Some(x as u32) } else { None } }
